@@ -594,7 +594,13 @@ def loop_progress(b, lp):
         if t["k"] == "call":
             nm = callee_names(t)[1] or callee_names(t)[0] or ""
             if PROGRESS.search(nm):
-                prog.add(bb)
+                # skip(0) / seek(Current(0)) move nothing
+                still = False
+                if nm.endswith("::skip") and len(t["args"]) > 1:
+                    a = b.term_of_operand(t["args"][1])
+                    still = a[0] == "const" and a[1] == 0
+                if not still:
+                    prog.add(bb)
         for s in b.blocks[bb]["stmts"]:
             if s["k"] == "assign" and not s["lhs"]["p"] and s["lhs"]["l"] in cond_locals:
                 prog.add(bb)
